@@ -96,8 +96,22 @@ def run(ctx) -> None:
         tgt = n.target if isinstance(n, ast.AnnAssign) else (n.targets[0] if isinstance(n, ast.Assign) else None)
         if tgt is not None and isinstance(tgt, ast.Name) and isinstance(n.value, ast.List):
             lists[tgt.id] = [e.value for e in n.value.elts if isinstance(e, ast.Constant)]
-    if "states_to_post" not in lists or "states_to_buffer" not in lists:
-        raise AnchorError("_post_async: states_to_post / states_to_buffer lists not found")
+    # the two state lists by role: the list the send is guarded by / the list the plain buffering branch is guarded by
+    g0 = cfg_of(pa)
+
+    def guard_list(pred):
+        for n in g0.nodes:
+            if pred(n):
+                for a, pol in facts_at(g0, n):
+                    if pol and a.startswith("self.state in ") and a[len("self.state in "):] in lists:
+                        return a[len("self.state in "):]
+        return None
+    POST = guard_list(lambda n: node_calls(n, "send_async"))
+    BUF = guard_list(lambda n: node_calls(n, "_buffer_message") and not any(
+        h.kind == "except" and g0.dominates(h, n) for h in g0.nodes))
+    if POST is None or BUF is None:
+        raise AnchorError("_post_async: the state lists guarding send_async / _buffer_message were not found")
+    lists["states_to_post"], lists["states_to_buffer"] = lists[POST], lists[BUF]
     explicit = [norm(c.comparators[0]).strip("'\"") for c in ast.walk(pa.node) if isinstance(c, ast.Compare) and norm(c.left) == "self.state"
                 and isinstance(c.ops[0], ast.Eq)]
     for s in states:
@@ -123,7 +137,7 @@ def run(ctx) -> None:
         else:
             ctx.fail("R27b", pa, h.ast, "_post_async: failed send is buffered on every path", "a message whose send failed is lost", p)
     sends = [n for n in g.nodes if node_calls(n, "send_async")]
-    if sends and all(("self.state in states_to_post", True) in facts_at(g, n) for n in sends):
+    if sends and all((f"self.state in {POST}", True) in facts_at(g, n) for n in sends):
         ctx.ok("R27b", "_post_async: sends only in posting states")
     else:
         ctx.fail("R27b", pa, pa.node, "_post_async: sends only in posting states", "send attempted in a non-connected state")
@@ -137,7 +151,13 @@ def run(ctx) -> None:
     for n in rec:
         facts = facts_at(g, n)
         inst = "_send_buffered_batch: 'Reconnected' only when the buffer is empty"
-        if any(a == "buffered_message_count > 0" and not pol for a, pol in facts) or any(a.endswith("== 0") and pol and "buffer" in a for a, pol in facts):
+        from ..util import local_single_defs as _lsd
+        sdefs = _lsd(sb)
+        # a local defined as the buffer size (self._get_buffer_size() / len(self._message_buffer)) tested `> 0` false or `== 0` true
+        size_locals = {k for k, v in sdefs.items() if "_get_buffer_size" in norm(v) or "len(self._message_buffer)" in norm(v)}
+        size_exprs = size_locals | {"self._get_buffer_size()", "len(self._message_buffer)"}
+        if any((a in {f"{x} > 0" for x in size_exprs} and not pol) or (a in {f"{x} == 0" for x in size_exprs} and pol)
+               for a, pol in facts):
             ctx.ok("R27c", inst)
         else:
             ctx.fail("R27c", sb, n.ast, inst, "the engine can report that it has caught up while messages are still stranded in the buffer")
@@ -149,8 +169,17 @@ def run(ctx) -> None:
     copy = [n for n in g.nodes if n.kind == "stmt" and isinstance(n.ast, ast.Assign) and "_message_buffer.copy()" in norm(n.ast.value)]
     gather = [n for n in g.nodes if any(call_attr(c) == "gather" for c in n.calls())]
     inst = "_send_buffered_batch: buffer copied before it is cleared, every copied message is posted"
-    txt = norm(sb.node)
-    posts_all = "for message in message_buffer" in txt and ("self._post_async(message)" in txt)
+    # every element of the copied buffer is posted: a comprehension over the copy whose element is self._post_async(<var>) (or a
+    # local wrapper that awaits self._post_async(<its parameter>))
+    copy_var = norm(copy[0].ast.targets[0]) if copy else None
+    wrappers = {fd.name for fd in ast.walk(sb.node) if isinstance(fd, (ast.FunctionDef, ast.AsyncFunctionDef)) and fd is not sb.node
+                and fd.args.args and any(isinstance(c, ast.Call) and norm(c.func) == "self._post_async"
+                                         and [norm(x) for x in c.args] == [fd.args.args[0].arg] for c in ast.walk(fd))}
+    comps = [c for c in ast.walk(sb.node) if isinstance(c, ast.ListComp) and len(c.generators) == 1 and not c.generators[0].ifs
+             and norm(c.generators[0].iter) == copy_var]
+    posts_all = bool(comps) and all(
+        isinstance(c.elt, ast.Call) and [norm(x) for x in c.elt.args] == [norm(c.generators[0].target)]
+        and (norm(c.elt.func) == "self._post_async" or (isinstance(c.elt.func, ast.Name) and c.elt.func.id in wrappers)) for c in comps)
     if clear and copy and gather and g.dominates(copy[0], clear[0]) and g.dominates(clear[0], gather[0]) and posts_all \
             and g.path_to_exit_avoiding([clear[0].id], lambda n: n.id == gather[0].id) is None:
         ctx.ok("R27c", inst)
@@ -176,7 +205,7 @@ def run(ctx) -> None:
     if loops:
         lp = loops[0]
         p = g.search([(lp.id, "loop")], lambda n: n.id == lp.id, blocked=lambda n: node_calls(n, "_buffer_message"),
-                     blocked_edge=lambda s, d, l: g.nodes[s].kind == "test" and norm(g.nodes[s].ast) == "msg is not None" and l == "F")
+                     blocked_edge=lambda s, d, l: g.nodes[s].kind == "test" and norm(g.nodes[s].ast) == f"{norm(lp.ast.target)} is not None" and l == "F")
         if p is None:
             ctx.ok("R27d", inst)
         else:
